@@ -17,6 +17,13 @@ stub model, the real `EmpiricalMeanVarModel` and the three real GP wrappers of `
 are compared with equality, touching rectangles included; everything else at a relative tolerance
 (1e-12 stub / empirical, 1e-9 GP posteriors: subset-vs-full prediction numerics) with the intersection
 decision skipped when borderline (flips under a ±1e-9 perturbation).
+
+Aliasing dimension (R): after every successful update the arrays returned by `model.predict`, the scale
+array and the index list are overwritten with garbage, and the array returned by `region.center` likewise;
+the displayed rectangles must not move (`aliasing:region-update-input`, `aliasing:region-export`).
+Merely shared storage is not raised.  The unchanged `EllipsoidalConfidenceRegion.update` stores the
+caller's `mean` / `covariance` / `scale` arrays themselves, so an ellipsoid does move when those arrays
+are overwritten: counted as `ellipsoid_aliases_update_inputs_info`, undone, and reported as an observation.
 """
 import os
 from fractions import Fraction
@@ -40,6 +47,7 @@ ASSUMPTIONS = ["std = numpy sqrt(diag cov) is taken as the exact half-width fact
 MAX_JOBS = 14
 
 SQUEEZERS = ("IndependentExactGPyTorchModel", "CorrelatedExactGPyTorchModel")
+GARBAGE = 977.125
 # development only (mutation runs): VERIF_C14_MUTE_SQUEEZE=1 turns the `single-design-mean-squeezed:*`
 # violations into a counter, so that other violations are not hidden behind them.  Never set by ./check.
 _MUTE = os.environ.get("VERIF_C14_MUTE_SQUEEZE") == "1"
@@ -63,6 +71,7 @@ class _Stub:
                 s.means = None
                 s.covs = None
                 s.queries = []
+                s.returned = []
 
             def add_sample(s, *a, **k):
                 pass
@@ -82,7 +91,9 @@ class _Stub:
                         raise RuntimeError("stub: query row is not a design point")
                     idx.append(int(hit[0]))
                 s.queries.append(idx)
-                return s.means[idx].copy(), s.covs[idx].copy()
+                out = (s.means[idx].copy(), s.covs[idx].copy())
+                s.returned.append(out)
+                return out
 
         return StubModel()
 
@@ -577,16 +588,63 @@ def run_case(ctx, case):
             if op.get("rel"):
                 ctx.count("rel_" + op["rel"][i])
         before = _snap(ds, conf)
+        sc_arr = _np_scale(sc)
+        idx_pass = None if idx is None else list(idx_l)
+        returned = []
+        if mk == "stub":
+            model.returned = returned
+        else:                                   # record the arrays the real model hands to the design space
+            orig_predict = model.predict
+
+            def rec_predict(X, _o=orig_predict):
+                out = _o(X)
+                returned.append(out)
+                return out
+            model.predict = rec_predict
         try:
-            ds.update(model, _np_scale(sc), None if idx is None else list(idx_l))
+            ds.update(model, sc_arr, idx_pass)
             status = "ok"
         except Exception as e:
             status = type(e).__name__
             err = e
+        finally:
+            if mk != "stub":
+                del model.predict
         try:
             after = _snap(ds, conf)
         except Exception:
             after = before
+        # ---- aliasing: the caller scribbles over everything it handed in / got back; the displayed regions
+        # must not move.  (Unchanged code: ellipsoids store the caller's arrays — recorded as information and
+        # undone, see the module doc-string; rectangles compute fresh arrays.)
+        if status == "ok" and valid:
+            arrays = [a for out in returned for a in out if isinstance(a, np.ndarray) and a.flags.writeable]
+            arrays.append(sc_arr)
+            saved = [np.array(a, copy=True) for a in arrays]
+            for a in arrays:
+                a.fill(GARBAGE)
+            if idx_pass is not None:
+                idx_pass[:] = [0] * len(idx_pass)
+            moved = not all(_same(x, y) for x, y in zip(_snap(ds, conf), after))
+            if moved and conf == "rect":
+                ctx.violation("aliasing:region-update-input", "a displayed rectangle changed when the arrays returned "
+                              "by model.predict / the scale array were overwritten after design_space.update",
+                              case, detail={"op": k, "indices": idx_l})
+                return
+            if moved:
+                ctx.count("ellipsoid_aliases_update_inputs_info")
+                for a, b in zip(arrays, saved):
+                    a[...] = b
+            if conf == "rect":                  # exported copies: the centre handed out must be a fresh array
+                for r_ in ds.confidence_regions:
+                    c_ = r_.center
+                    if isinstance(c_, np.ndarray) and c_.flags.writeable:
+                        c_.fill(GARBAGE)
+                if not all(_same(x, y) for x, y in zip(_snap(ds, conf), after)):
+                    ctx.violation("aliasing:region-export", "a displayed rectangle changed when the array returned by "
+                                  "region.center was overwritten", case, detail={"op": k})
+                    return
+            ctx.count("aliasing_checked")
         lean_ops.append("U:" + _lean_scale(sc) + ":" + core.nats(idx_l) + ":" + core.qmat(mu_full) + ":" +
                         core.qmat(std_full) + ":" + core.qmats(cov_full))
         impl_states.append((status, after))
